@@ -59,7 +59,7 @@ CHECKS = {
             U('^TestC04_Paginated$', (4, 500, 50), (4, 2500, 100)),
             U('^TestC04_LargeScale$', (3, 200), (2, 6000)),
         ],
-        essential_labels=['kind:dense', 'kind:sparse', 'kind:paginated', 'event:array-shift', 'event:page-created', 'event:buffer-compacted', 'op:merge', 'op:encdec', 'op:proto', 'op:reweight', 'op:copy', 'op:clear', 'large-scale', 'shape:round-robin'],
+        essential_labels=['kind:dense', 'kind:sparse', 'kind:paginated', 'event:array-shift', 'event:page-created', 'event:buffer-compacted', 'op:merge', 'op:encdec', 'op:proto', 'op:reweight', 'op:copy', 'op:clear', 'large-scale', 'shape:round-robin', 'paginated-method-mergewithproto'],
         assumptions=COMMON_ASSUMPTIONS + ["weights are dyadic and bounded so that every float64 partial sum is exact (DESIGN §1.1); index spans are capped per store kind by memory"],
     ),
     'C05': dict(
@@ -117,7 +117,7 @@ CHECKS = {
     'C13': dict(
         level='exploration',
         units=[U('^TestC13$', (8, 12000), (16, 100000))],
-        essential_labels=['refused-add', 'refused-quantile', 'refused-merge', 'refused-reweight', 'refused-constructor', 'accept-at-boundary', 'state:empty', 'state:non-empty', 'variant:exact', 'variant:plain', 'mismatch:kind', 'mismatch:alpha'],
+        essential_labels=['refused-add', 'refused-quantile', 'refused-merge', 'refused-reweight', 'refused-reweight-store-level', 'refused-constructor', 'accept-at-boundary', 'state:empty', 'state:non-empty', 'variant:exact', 'variant:plain', 'mismatch:kind', 'mismatch:alpha'],
         assumptions=COMMON_ASSUMPTIONS + ["NaN weights/factors/constructor parameters are outside the property", "AddWithCount(invalid value, 0) on the exact variant may return nil or the error; only 'changes nothing' is required"],
     ),
     'C14': dict(
